@@ -55,7 +55,7 @@ def budget(tier):
 
 def floor(tier):
     return dict(min_conclusive=60 if tier == "quick" else 1200, min_nontrivial=40 if tier == "quick" else 300,
-                classes=cards.XSS + ["y->0", "y=1", "tmc"], min_compared=2000)  # fmt: skip
+                classes=cards.XSS + ["y->0", "y=1", "tmc", "prerun"], min_compared=2000)  # fmt: skip
 
 
 def cases(tier, rng):
@@ -77,7 +77,7 @@ def cases(tier, rng):
             if tmc:
                 # the Nachtmann variable must stay inside the grid: choose x away from the lower end
                 p["x"] = float(max(p["x"], min(0.5, g["xgrid"][1] * 2.0)))
-        out.append(dict(id=f"c11-{i}", kind=kind, heavy=heavy, grid=g, points=pts, **cfg))
+        out.append(dict(id=f"c11-{i}", kind=kind, heavy=heavy, grid=g, points=pts, prerun=bool(i % 3 == 1), **cfg))
     return out
 
 
@@ -92,10 +92,21 @@ def run_case(case):
     for s in sfs:
         obsd[f"{s}_{h}"] = pts_sf
     ob = cards.observables(obsd, xgrid=g["xgrid"], deg=g["deg"], is_log=g["is_log"], **case["obs"])
+    if case.get("prerun"):
+        # the same cross-section requests first under the other processes in this process: whatever the code memoises about a
+        # (kind, x, y, Q2, projectile) must not survive into the judged run
+        for proc in ("EM", "NC", "CC"):
+            if proc != case["obs"]["prDIS"] and not (proc == "CC" and kind == "g5"):
+                try:
+                    run.run(th, cards.observables({f"{kind}_{h}": pts_xs}, xgrid=g["xgrid"], deg=g["deg"], is_log=g["is_log"], **dict(case["obs"], prDIS=proc)))
+                except (ValueError, NotImplementedError):
+                    pass
     out = run.run(th, ob)
     viol, nontrivial, classes = [], set(), {kind}
     if th["TMC"]:
         classes.add("tmc")
+    if case.get("prerun"):
+        classes.add("prerun")
     compared, margin, sample = 0, 0.0, None
     proj = case["obs"]["ProjectileDIS"]
     for i, p in enumerate(case["points"]):
